@@ -48,7 +48,7 @@ GUARD_OUTBOUND = [
 GUARD_CTL = [
     "discrim.override_group_built_nonempty", "discrim.large_pool_group_built",
     "discrim.multi_subscription_group_built", "group.members_are_override_clones",
-    "group.fixed_selected", "group.fixed_range", "pool.with_unparsable_link",
+    "policy.fixed_near_range", "policy.fixed_at_len", "pool.with_unparsable_link",
 ]
 
 
